@@ -301,9 +301,12 @@ def expected_at(shape_kind, tab, idx, wl):
         return ph(tab['rate'][idx[0]][idx[1]])
     if shape_kind == 'grid3':
         return ph(tab['rate'][idx[0]][idx[1]][idx[2]])
+    # ratios first: the same number as sen*st/sref and qeb*qti*qni*qz*qb/qref**4, without intermediate under- / overflow
+    # when the components have extreme (legal) magnitudes
     if shape_kind == 'beam':
-        return ph(tab['sen'][idx[0]][idx[1]]) * tab['st'][idx[2]] / tab['sref']
-    return ph(tab['qeb'][idx[0]]) * tab['qti'][idx[1]] * tab['qni'][idx[2]] * tab['qz'][idx[3]] * tab['qb'][idx[4]] / tab['qref'] ** 4
+        return ph(tab['sen'][idx[0]][idx[1]]) * (tab['st'][idx[2]] / tab['sref'])
+    q = tab['qref']
+    return ph(tab['qeb'][idx[0]]) * (tab['qti'][idx[1]] / q) * (tab['qni'][idx[2]] / q) * (tab['qz'][idx[3]] / q) * (tab['qb'][idx[4]] / q)
 
 
 def eval_points(rng, shape_kind, tab, n_interior):
@@ -1179,6 +1182,53 @@ def degenerate(shape, tab, label):
     return one(tab)
 
 
+MAGNITUDES = ['mag:-280:0', 'mag:-40:60', 'mag:0:64', 'mag:-33:0', 'mag:40:0', 'mag:30:120']
+MAG_DIMS = {'grid2': (3, 5), 'grid3': (3, 4, 3), 'beam': (4, 3, 3), 'beamCX': (5, 2, 3, 2, 2)}
+
+
+def magnitude(shape, tab, label, photon):
+    """the same table at an extreme but legal magnitude: every stored coefficient times 10**shift (hot end) falling by
+    `ramp` further decades towards the cold end of the temperature / energy axis like exp(-E/T) (the cold ends of ADF11
+    tables: 8.6e-74 m^3/s and below).  Photon coefficients stay above 1e-270 so that x / wavelength * hc stays a normal
+    double.  Linear-space components (st, q*) and their reference value move together by 10**-45 / 10**+20."""
+    _, shift, ramp = label.split(':')
+    shift, ramp = float(shift), float(ramp)
+    if photon:
+        shift = max(shift, -250.0)
+        ramp = min(ramp, shift + 250.0)
+    joint = 1e-45 if shift < 0 else (1e20 if shift > 0 else 1.0)
+
+    def u(xs):
+        if len(xs) < 2:
+            return [0.0] * len(xs)
+        a, b = 1.0 / xs[0], 1.0 / xs[-1]
+        return [(1.0 / x - b) / (a - b) for x in xs]
+
+    def one(t):
+        t = json.loads(json.dumps(t))
+        if shape == 'grid2':
+            w = u(t['te'])
+            t['rate'] = [[_sig(v * 10 ** (shift - ramp * w[j])) for j, v in enumerate(row)] for row in t['rate']]
+        elif shape == 'grid3':
+            w = u(t['te'])
+            t['rate'] = [[[_sig(v * 10 ** (shift - ramp * w[j])) for v in cell] for j, cell in enumerate(pl)] for pl in t['rate']]
+        elif shape == 'beam':
+            w = u(t['e'])
+            t['sen'] = [[_sig(v * 10 ** (shift - ramp * w[i])) for v in row] for i, row in enumerate(t['sen'])]
+            t['st'] = [_sig(v * joint) for v in t['st']]
+            t['sref'] = _sig(t['sref'] * joint)
+        else:
+            w = u(t['eb'])
+            t['qeb'] = [_sig(v * 10 ** (shift - ramp * w[i])) for i, v in enumerate(t['qeb'])]
+            for k in ('qti', 'qni', 'qz', 'qb'):
+                t[k] = [_sig(v * joint) for v in t[k]]
+            t['qref'] = _sig(t['qref'] * joint)
+        return t
+    if shape == 'beamCX':
+        return dict(metastables={int(m): one(t) for m, t in tab['metastables'].items()})
+    return one(tab)
+
+
 def _flat_first(t):
     return _flat_first(t[0]) if isinstance(t, list) else t
 
@@ -1215,7 +1265,7 @@ def numeric_case(ctx, cat, repo, name, dims, ex, gap=None, fixed=None, steep=Non
     tabs = {}
     tab = fixed['tab'] if fixed else gen_table(rng, shape, dims, gap)
     if degen and not fixed:
-        tab = degenerate(shape, tab, degen)
+        tab = magnitude(shape, tab, degen, bool(spec['wl'])) if degen.startswith('mag:') else degenerate(shape, tab, degen)
     if steep is not None and not fixed:
         for ax_ in (steep if isinstance(steep, tuple) else (steep,)):
             tab = make_steep(rng, shape, tab, ax_)
@@ -1351,9 +1401,16 @@ def numeric_stream(ctx, cat, plan):
                 ctx.disagreements += 1
                 _broke(ctx, 'numeric stream ctor ' + c['name'], dict(input=desc, model=out, implementation='constructor raised ValueError: ' + str(c['val'])))
             continue
+        mag = str(c.get('degen') or '').startswith('mag:')
         for (kind, args, info), (ist, iv), (mst, mv) in zip(pts, res, mods):
             ctx.traces += 1
             ctx.count('eval:' + kind)
+            if mag and kind == 'knot' and ist == 'ok':
+                ctx.count('magnitude-knots')
+                if 0 < iv < 1e-50:
+                    ctx.count('magnitude-knots-below-1e-50')
+                if iv > 1e10:
+                    ctx.count('magnitude-knots-above-1e10')
             ctx.case(key=(c['name'], kind, tuple(f2b(x) for x in args), c['ex']),
                      sample=dict(accessor=c['name'], kind=kind, args=args, result=[ist, iv]) if ctx.rng.random() < 0.0004 else None)
             d = dict(desc, args=args, point=kind, info=info, implementation=[ist, iv])
@@ -2016,6 +2073,93 @@ def constants_check(ctx):
             pass
 
 
+def conversion_stream(ctx):
+    """K: cherab/core/utility/conversion.py against `Cherab/Model/Conversion.lean` — every class, `to` and `inv`, the
+    GENERATED return expressions (interpreted with Python's method resolution) and the hand-written functions, on
+    mostly-valid and malformed arguments (zero / negative / infinite / nan values, wavelengths and factors); the
+    `conversion_factor` expressions in scipy.constants' environment; the class list."""
+    import inspect
+    import scipy.constants as sc
+    import cherab.core.utility.conversion as M
+    rng = ctx.rng
+    classes = [n for n, c in vars(M).items() if inspect.isclass(c) and c.__module__ == M.__name__]
+    out = drive(ctx, ['cvt'])[0]
+    gen = [x for x in out.split()[0].split(',') if x]
+    ctx.traces += 1
+    if sorted(gen) != sorted(classes) or not out.endswith('not-understood:'):
+        ctx.disagreements += 1
+        _broke(ctx, 'conversion classes', dict(implementation=sorted(classes), generated=out))
+    env = []
+    for n in ('elementary_charge', 'atomic_mass', 'Planck', 'speed_of_light'):
+        env += [n, f2b(float(getattr(sc, n)))]
+    # conversion factors
+    lines, want = [], []
+    for n in classes:
+        lines.append('cvf %s %s' % (n, ' '.join(env)))
+        want.append(float(getattr(M, n).conversion_factor) if hasattr(getattr(M, n), 'conversion_factor') else None)
+    for l, o, w in zip(lines, drive(ctx, lines), want):
+        ctx.traces += 1
+        ctx.case(key=('conv-factor', l.split()[1]))
+        got = [None if t == 'none' else b2f(t) for t in o.split()]
+        ok = len(got) == 2 and all((g is None) == (w is None) and (w is None or f2b(g) == f2b(w)) for g in got)
+        if not ok:
+            ctx.disagreements += 1
+            _broke(ctx, 'conversion factor', dict(line=l, model=got, implementation=w))
+    # methods
+    special = [0.0, -0.0, -1.0, -3.7e5, float('inf'), float('-inf'), float('nan'), 5e-324, 1e-310, 1.7e308, 1e-200, 1e200]
+
+    def pick(p_special=0.2):
+        if rng.random() < p_special:
+            return rng.choice(special)
+        return 10.0 ** rng.uniform(-30, 30) * rng.choice((1.0, 1.0, 1.0, 1.0 + rng.random()))
+
+    lines, calls = [], []
+    reps = ctx.n(60, 600)
+    for n in classes:
+        cls = getattr(M, n)
+        has_cf = hasattr(cls, 'conversion_factor')
+        two = n == 'PhotonToJ'
+        for direction in ('to', 'inv'):
+            for r in range(reps):
+                x = pick()
+                wl = (rng.choice((656.28, 121.567, 10.0 ** rng.uniform(0, 4))) if rng.random() < 0.8 else rng.choice(special)) if two else 1.0
+                if has_cf and r % 3:
+                    cf = float(cls.conversion_factor)
+                    sub = cls
+                else:
+                    # a subclass with another (possibly malformed) factor: the methods read `cls.conversion_factor`
+                    cf = pick(0.3)
+                    sub = type(n + 'Sub', (cls,), dict(conversion_factor=cf))
+                as_array = r % 4 == 0
+                arg = np.array([x]) if as_array else np.float64(x)
+                with np.errstate(all='ignore'):
+                    v = getattr(sub, direction)(arg, np.float64(wl)) if two else getattr(sub, direction)(arg)
+                v = float(np.asarray(v).reshape(-1)[0])
+                lines.append('cv %s %s %s %s %s' % (n, direction, f2b(x), f2b(wl), f2b(cf)))
+                calls.append((n, direction, x, wl, cf, v))
+                ctx.case(key=('conv', n, direction, f2b(x), f2b(wl), f2b(cf)))
+            # plain Python floats on valid input (the scalar code path: float ** 2, math on floats)
+            if has_cf:
+                for r in range(ctx.n(6, 60)):
+                    x = 10.0 ** rng.uniform(-20, 20)
+                    wl = 10.0 ** rng.uniform(0, 4) if two else 1.0
+                    v = float(getattr(cls, direction)(x, wl) if two else getattr(cls, direction)(x))
+                    lines.append('cv %s %s %s %s %s' % (n, direction, f2b(x), f2b(wl), f2b(float(cls.conversion_factor))))
+                    calls.append((n, direction, x, wl, float(cls.conversion_factor), v))
+    n_special = 0
+    for l, o, c in zip(lines, drive(ctx, lines), calls):
+        ctx.traces += 1
+        got = [None if t == 'none' else b2f(t) for t in o.split()]
+        v = c[5]
+        if not (math.isfinite(v) and v != 0):
+            n_special += 1
+        if len(got) != 2 or any(g is None or not close(g, v, 1e-15) for g in got):
+            ctx.disagreements += 1
+            _broke(ctx, 'conversion ' + c[0] + '.' + c[1], dict(line=l, x=c[2], wavelength=c[3], factor=c[4], model=got, implementation=v))
+    ctx.count('conversion-calls', len(lines))
+    ctx.count('conversion-calls-nonfinite-or-zero', n_special)
+
+
 def plan_numeric(ctx, cat):
     rng = ctx.rng
     plan = []
@@ -2046,6 +2190,13 @@ def plan_numeric(ctx, cat):
             for dims, label in DEGENERATE[spec['shape']]:
                 for ex in (False, True):
                     plan.append((name, dims, ex, None, None, None, label))
+    # extreme but legal magnitudes (1e-300 … 1e+30, cold ends far below 1e-50): every class, all point kinds; the grid
+    # points must reproduce the stored values RELATIVELY (a floor / clip on the table before log10 shows here)
+    for rep in range(ctx.n(1, 4)):
+        for name, spec in cat.items():
+            for label in MAGNITUDES:
+                for ex in (False, True):
+                    plan.append((name, MAG_DIMS[spec['shape']], ex, None, None, None, label))
     # steep tables: every class (through its accessor), every axis, both extrapolation settings
     for rep in range(ctx.n(1, 6)):
         for name, spec in cat.items():
@@ -2091,7 +2242,10 @@ ACCESSOR_NAMES = set()
 def setup(ctx):
     """translator, T, catalogue; returns (catalogue, translator output)"""
     from harness.translators import openadas_policy
+    from harness.translators import conversion as conversion_tr
     tr = openadas_policy.translate()
+    trc = conversion_tr.translate()
+    ctx.extra['translator_conversion'] = dict(classes=[c['name'] for c in trc['classes']], regenerated=trc['changed'])
     for c in tr['classes']:
         AXIS_LOG_NUMPY[c['name']] = c['axisLogNumpy']
     ctx.extra['translator'] = dict(accessors=[a['name'] for a in tr['accessors']], regenerated=tr['changed'],
@@ -2125,7 +2279,8 @@ def describe(ctx):
                 'list (incl. single-point axes), evaluated at every grid point, interior points, non-positive arguments and 1.001x/3x/10x outside '
                 'each axis end; distinct by (accessor, point kind, argument bit patterns, extrapolate); non-trivial = the accessor was really called '
                 'on a repository written by the repository module')
-    ctx.trusted += ['harness/translators/openadas_policy.py (syntactic; its table is interpreted by the driver and compared with the running accessors)',
+    ctx.trusted += ['harness/translators/conversion.py (syntactic; its expressions are interpreted by the driver and compared with the running classes)',
+                    'harness/translators/openadas_policy.py (syntactic; its table is interpreted by the driver and compared with the running accessors)',
                     'raysect Interpolator1D/2D/3DArray, Constant1D/2D, Arg2D, IsoMapper2D: parameters of the model under the contract ExtSpec '
                     '(through the knots; raise outside the knot range iff extrapolation type is none; >= 2 knots per interpolated axis)',
                     'libm log10/pow and NumPy log10: parameters (pow10(log10 y) = y, pow10 > 0, pow10(a+b) = pow10 a * pow10 b, log10 strictly increasing)',
@@ -2159,9 +2314,10 @@ def finish_run(ctx):
 def run(ctx):
     describe(ctx)
     cat, tr = setup(ctx)
-    ctx.lean_check(['Cherab.Props.C07', 'Cherab.Props.C07Table'], 'Cherab/Audit/C07.lean')
+    ctx.lean_check(['Cherab.Props.C07', 'Cherab.Props.C07Table', 'Cherab.Props.C07Conv'], 'Cherab/Audit/C07.lean')
     try:
         constants_check(ctx)
+        conversion_stream(ctx)
         corpus_stream(ctx, cat)
         n_pol = policy_stream(ctx, cat)
         ctx.count('policy-cases', n_pol)
